@@ -466,7 +466,10 @@ def part_trace(ctx, res, tally):
             for (b, ln, x), pr_in in zip(lst, pl):
                 ln["_steps"] = pr_in["steps"]
         else:
-            vlib.write_ndjson(pin, [{"tab": ln["tab"], "h": x["h"], "qt": x["qt"], "query": x["query"], "expect": b["exp"]}
+            # (pipe: the transition from the table the live server had before is rehearsed too)
+            vlib.write_ndjson(pin, [dict({"tab": ln["tab"], "h": x["h"], "qt": x["qt"], "query": x["query"], "expect": b["exp"]},
+                                         **({"prev_table": ln["prev_table"], "qs": ln.get("prev_qs", [])}
+                                            if ln.get("prev_table") is not None else {}))
                                     for b, ln, x in lst])
         pkg, run = {"filt": (FPKG, "^TestZZVerifC06Probe$"), "pipe": (DPKG, "^TestZZVerifC06PipeProbe$"),
                     "hist": (FPKG, "^TestZZVerifC06HistProbe$")}[lvl]
@@ -484,6 +487,8 @@ def part_trace(ctx, res, tally):
                    "trace_observation": x}
             if lvl == "hist":
                 rec["steps"] = ln.get("_steps")
+            if ln.get("prev_table") is not None:
+                rec["prev_table"], rec["qs"] = ln["prev_table"], ln.get("prev_qs", [])
             tally.report(ctx, rec, "trace (%s): %s %s observed %s, spec admits %s, table %s" % (
                 lvl, x["query"], x["qt"], json.dumps(pr.get("got")), json.dumps(pr.get("expected")), json.dumps(ln["table"])))
     if not_reproduced:
@@ -504,8 +509,18 @@ def run(ctx):
         part_generate(ctx, res)
         part_replay(ctx, res, tally)
 
-    run_parallel([strand_a, lambda: part_live(ctx, res), lambda: part_history(ctx, res, tally),
-                  lambda: part_trace(ctx, res, tally)])
+    try:
+        run_parallel([strand_a, lambda: part_live(ctx, res), lambda: part_history(ctx, res, tally),
+                      lambda: part_trace(ctx, res, tally)])
+    except vlib.Inconclusive as e:
+        if not ctx.violations:
+            raise
+        # A reproduced disagreement stands, whatever stopped another strand.
+        ctx.log("a strand was inconclusive (%s); reporting the reproduced disagreements" % str(e)[:300])
+        return ctx.finish("model_checking", {
+            "traces_validated_against_impl": 0, "evaluations": 0, "distinct_nontrivial": 0, "exhaustive": False,
+            "rule": "run cut short: a reproduced disagreement is reported although another strand was inconclusive",
+            "samples": [], "incomplete": str(e)[:500], "known_finding_disagreements": tally.known})
 
     # Vacuity of the pipeline sample (only meaningful when nothing is reported:
     # a disagreement can be the very reason a class was not observed).
